@@ -34,6 +34,8 @@ def build(case):
 
 def suite_riemann(ctx, case):
     d = build(case); N = int(d.length)
+    if case.get('decoy'):
+        decoy = pyPRISM.Domain(length=N, dr=float(d.dr) * 0.37); decoy.dk = float(d.dk) * 1.9          # another Domain configured later
     rs = np.random.RandomState(case['aseed'])
     f = rs.normal(size=N) * np.exp(-np.arange(N) / (0.3 * N + 1)) * case.get('amp', 1.0)
     if case.get('dtype') == 'int': f = np.rint(3 * f / (np.max(np.abs(f)) + 1e-300)).astype(int)        # integer-typed samples, e.g. np.where(r <= R, 1, 0)
@@ -66,9 +68,10 @@ def suite_analytic(ctx, case):
     name, A, a = case['fam']; f, Fh, vol = fam(name, A, a)
     rmax = case['rmax']; N0 = case['N0']
     errs_f = []; errs_b = []; errs_0 = []; drs = []
+    family = [pyPRISM.Domain(length=N, dr=rmax / N) for N in case['Ns']] if case.get('family_first') else None      # all members built before any is used
     for m, N in enumerate(case['Ns']):
         dr = rmax / N
-        d = pyPRISM.Domain(length=N, dr=dr)
+        d = family[m] if family else pyPRISM.Domain(length=N, dr=dr)
         ctx.validation_runs += 1
         nk = max(2, N0 // 4)                                  # resolved wavenumbers: the lowest quarter of the coarsest grid
         F = d.to_fourier(f(d.r))
@@ -128,7 +131,7 @@ def generate(ctx):
         else: case['dr' if rng.random() < 0.5 else 'dk'] = float('%.5g' % (10 ** rng.uniform(-2, 0.5)))
         if rng.random() < 0.12: case.pop('dk', None); case['dr'] = rng.choice([1, 2, 3])        # integer-TYPED spacing: Domain(length, dr=1)
         elif rng.random() < 0.12: case.pop('dk', None); case['dr'] = float('%.5g' % (10 ** rng.uniform(-12, -9)))      # lengths in metres: spacings of 1e-12 .. 1e-9
-        case['dtype'] = rng.choice(['float', 'float', 'float', 'int', 'bool'])
+        case['dtype'] = rng.choice(['float', 'float', 'float', 'int', 'bool']); case['decoy'] = rng.random() < 0.5
         for _ in range(rng.choice([0, 0, 1, 2])):
             k = rng.choice(['dr', 'dk', 'length'])
             case['ops'].append([k, rng.choice([5, 9, 16, 21, 40]) if k == 'length' else float('%.5g' % (10 ** rng.uniform(-2, 0.5)))])
@@ -145,5 +148,5 @@ def generate(ctx):
         else: a = float('%.4g' % (1.0 / rng.uniform(5 * dr0, max(6 * dr0, min(rmax / 14, 40 * dr0)))))
         mode = rng.choice(['x2', 'x2', 'odd'])
         Ns = [N0, 2 * N0, 4 * N0] if mode == 'x2' else [N0, 2 * N0 + rng.choice([-1, 1]), 4 * N0 + rng.choice([-3, -1, 1, 3])]
-        case = {'fam': [name, A, a], 'rmax': rmax, 'N0': N0, 'Ns': Ns}
+        case = {'fam': [name, A, a], 'rmax': rmax, 'N0': N0, 'Ns': Ns, 'family_first': rng.random() < 0.5}
         ctx.case('analytic', case, True, tags=['fam:' + name, 'refine:' + mode]); suite_analytic(ctx, case)
